@@ -578,7 +578,14 @@ def run(ctx):
     depth = int(os.environ.get("VERIF_C07_DEPTH", 2 if ctx.quick() else 3))
     pool = os.environ.get("VERIF_C07_POOL", "abU" if ctx.quick() else "abUπ")
     blocks = list(BLOCKS)
-    tasks = templates(budget, depth, blocks)
+    if ctx.quick() or os.environ.get("VERIF_C07_ITEMS"):
+        tasks = templates(budget, depth, blocks)
+    else:
+        # thorough: 3 items nested to depth 3, plus every 4-item program with nesting 1 (the full 4 x 3 product is ~180 k templates,
+        # about 9 hours on 16 cores - measured - and is left outside the claim)
+        tasks = templates(3, 3, blocks)
+        seen = set(tasks)
+        tasks += [t for t in templates(4, 1, blocks) if t not in seen]
     tasks += with_alt_uses(tasks, 2 if ctx.quick() else 3)
     if os.environ.get("VERIF_C07_ONLY"):
         tasks = [t for t in tasks if tname(t) == os.environ["VERIF_C07_ONLY"]]
@@ -639,7 +646,7 @@ def run(ctx):
         res.samples.append(what)
     res.samples.append({"template": "D,IF(D,UL)", "outcome": "for every naming: the use binds to the inner declaration iff the names are equal, else to the outer one, else it is undefined"})
     res.functions_encoded += ["oq3_semantics::syntax_to_semantics::* (reached)", "oq3_semantics::symbols::* (SymbolTable, ScopeSymbolTable)", "oq3_semantics::context::*", "oq3_parser (tree construction)"]
-    res.bounds.update({"items_per_program": budget, "nesting": depth, "name_pool": pool, "templates": len(tasks)})
+    res.bounds.update({"items_per_program": budget if ctx.quick() else "3 (nesting 3) and 4 (nesting 1)", "nesting": depth, "name_pool": pool, "templates": len(tasks)})
     res.stubs += ["rowan tree model", "hashbrown map model (HashMap contract)", "string models"]
     res.assumptions += ["a gate / subroutine name becomes visible after its definition (C09: bound after the body), a for-loop variable shares the scope of the loop body"]
     res.outside_claim += ["names longer than one character (only single-character built-ins U and π collide)", "programs with more items / deeper nesting", "use positions beyond: assignment target, expression statement, initializer, gate / measure operand, indexed target, binary operand, if / while condition, width designator"]
